@@ -40,10 +40,12 @@ NA_REASONS = {
 }
 
 NOT_BUILT = "simulation target per DESIGN.md §1 but its engine is not built/sound yet in this tree, so it is not claimed"
-for _p in "C14 C22 C23 C26 C27 C35 C36 C37 C39 C42 C44 C45 C46".split():
+for _p in "C14 C22 C23 C26 C27 C35 C36 C37 C39 C42 C44 C45".split():
     NA_REASONS[_p] = NOT_BUILT
 
 ENGINE_INFO = {
+    "E2-build-sim": {"path": "simkit/e2_build.py", "serves_properties": ["C46"],
+                     "kind_free_text": "real cythonize over generated trees with simulator-owned mtimes and simulated process restarts vs dependency-graph model"},
     "E1-cache-sim": {"path": "simkit/e1_cache.py", "serves_properties": ["C48"],
                      "kind_free_text": "multi-process simulation of cythonize on a shared cache directory with seeded scheduling of Cache.py I/O steps, kill and disk-error injection"},
     "E10-stream": {"path": "simkit/e10_stream.py", "serves_properties": ["C50"],
@@ -53,6 +55,12 @@ ENGINE_INFO = {
 }
 
 CHECKS = {
+    "C46": {
+        "engine": "E2-build-sim", "level": "exploration", "design_ref": "DESIGN.md §4 E2",
+        "technique": "deterministic simulation with a simulated mtime clock: seeded edit/touch/backdate/clock-jump/restart histories on a real generated tree, real cythonize per simulated process, refinement against a dependency-graph + stamp-rule model and against the files the compiler actually opens (audit hook); ddmin replay",
+        "text": "Seeded histories over generated trees (cimport cycles, packages, include chains, decoy statements in comments and strings). The simulator stamps every mtime (equal stamps, sub-second steps, backward jumps, restored-from-backup) and invokes the real cythonize in a seeded module order. Oracles per invocation: the regenerate set equals the model's (C missing / foreign marker / older than the newest file in the transitive closure); all_dependencies(m) equals the model closure; and equals the set of tree files the compiler opened while compiling m. Sampling, not proof.",
+        "note": "A simulated process is one cythonize() call (in-process caches dropped between calls). No syntax-error steps. Packages carry __init__.py only. Graph shapes are sampled (the quantifier's exhaustive enumeration of graphs on <= 4 files would be model checking and is not done); evidence reports trees with cycles and multi-module query orders reached.",
+    },
     "C48": {
         "engine": "E1-cache-sim", "level": "exploration", "design_ref": "DESIGN.md §4 E1",
         "technique": "deterministic simulation with fault injection: real cythonize/compile processes sharing one cache directory, parked at every Cache.py I/O call and released one at a time by a seeded scheduler that also injects SIGKILL and ENOSPC/EIO; every successful invocation is compared with a fresh uncached compilation; ddmin-minimised history as replay",
